@@ -6,6 +6,8 @@ sys.path.insert(0, ROOT)
 
 LEVELS = {
  "C01": ("exploration", "4.C01", "Lock-step reference model over every operation history of length <= 5 (quick) / 6 (thorough) on 4 events plus tens of thousands of random histories with interior removals; held = no observed return value or drain order differed from a sorted set.", "Python's float/int/Duration ordering; events are not added twice while pending."),
+ "C12": ("exploration", "4.C12", "Every draw of tens of thousands of generated scripts is compared bit-for-bit between a stream, its twin, a solo run and runs interleaved with an unrelated stream; reset/set_seed judged against a fresh stream, restore against the recorded continuation. Held = no difference observed on the scripts run.", "CPython's random.Random is the generator underneath; spans below 2^1024."),
+ "C16": ("exploration", "4.C16", "Exhaustive over the finite configuration space the statement names (all 41x41 ordered type pairs for * and /, every class against numbers and SI values, all SI signatures with <=3 non-zero exponents in all 8 print formats), sampled beyond it (random full signatures and values). Oracle = signature calculus + one IEEE operation, compared bit-for-bit.", "Quantity.sisig() of a named class is taken as that class's dimension; finite non-zero operand values."),
 }
 
 def main():
